@@ -153,3 +153,52 @@ func TestKnownC17(t *testing.T) {
 	}
 	fmt.Printf("NOTE: open finding %s did not reproduce (code %d %s)\n", f.Key, q.Code, q.Log)
 }
+
+// TestKnownC11 : the proof of an update to the id-less (deactivating) document names no DID;
+// re-sent under another DID that lists the same key at the same sequence it deactivates that DID.
+func TestKnownC11(t *testing.T) {
+	f, ok := findingByKey("C11-unbound-empty-update-proof")
+	if !ok {
+		t.Skip("not an open finding")
+	}
+	w, err := world.New(world.Options{Prop: "none"})
+	if err != nil {
+		t.Fatal(err)
+	}
+	keys := world.DIDKeys()
+	mkDoc := func(did string) *didtypes.DIDDocument {
+		vm := &didtypes.VerificationMethod{Id: did + "#k", Type: es256k2019, Controller: did, PublicKeyBase58: base58.Encode(keys[0].Pub)}
+		return &didtypes.DIDDocument{Id: did, VerificationMethods: []*didtypes.VerificationMethod{vm},
+			Authentications: []didtypes.VerificationRelationship{didtypes.NewVerificationRelationship(vm.Id)}}
+	}
+	sign := func(doc *didtypes.DIDDocument, seq uint64) []byte {
+		bz, _ := doc.Marshal()
+		sig, _ := keys[0].Secp.Sign(world.DataWithSeqBytes(bz, seq))
+		return sig
+	}
+	send := func(m sdk.Msg) bool {
+		_ = w.Apply(world.Step{Kind: "tx", Tx: &world.TxStep{Msgs: []world.MsgJSON{world.EncodeMsg(m)}, Signers: []simnet.SignerSpec{{Acct: 0}}}})
+		return w.LastTx.OK()
+	}
+	a, b := keys[0].DID(), keys[1].DID() // two identifiers, both controlled by key 0
+	from := w.Accts[0].Bech
+	for _, d := range []string{a, b} {
+		doc := mkDoc(d)
+		if !send(&didtypes.MsgCreateDIDRequest{Did: d, Document: doc, VerificationMethodId: d + "#k", Signature: sign(doc, 0), FromAddress: from}) {
+			fmt.Printf("NOTE: open finding %s did not reproduce: create refused (%s)\n", f.Key, w.LastTx.Res.Log)
+			return
+		}
+	}
+	empty := &didtypes.DIDDocument{}
+	proofForA := sign(empty, 0) // made by the holder in order to deactivate A
+	if !send(&didtypes.MsgUpdateDIDRequest{Did: a, Document: empty, VerificationMethodId: a + "#k", Signature: proofForA, FromAddress: from}) {
+		fmt.Printf("NOTE: open finding %s did not reproduce: update to the empty document refused (%s)\n", f.Key, w.LastTx.Res.Log)
+		return
+	}
+	// anybody re-sends it under B
+	if send(&didtypes.MsgUpdateDIDRequest{Did: b, Document: empty, VerificationMethodId: b + "#k", Signature: proofForA, FromAddress: from}) {
+		knownLine(f)
+		return
+	}
+	fmt.Printf("NOTE: open finding %s did not reproduce (%s)\n", f.Key, w.LastTx.Res.Log)
+}
